@@ -136,6 +136,31 @@ def mutants():
                                 continue
                             seen.add(key)
                             ms.append(dict(file=rel, line=i + 1, old=ln.strip(), new=new.strip(), text=new, op="variant %s::%s→%s" % (en, vn, sib[0])))
+            if "lines" in KINDS:
+                st = code.strip()
+                # statement deletion: a call or assignment standing on its own line
+                if st.endswith(";") and not re.match(r"(let|use|return|pub|fn|const|static|type|mod|break|continue|\}|\))", st) and st.count("(") == st.count(")"):
+                    ms.append(dict(file=rel, line=i + 1, old=ln.strip(), new="/* deleted */", text=ln[: len(ln) - len(ln.lstrip())] + "/* deleted */", op="delete statement"))
+                # two neighbouring list entries (alternatives of alt((..)), match arms, table rows, arguments) swapped
+                if i + 1 < len(lines) and st.endswith(",") and lines[i + 1].split("//")[0].strip().endswith(",") and (len(ln) - len(ln.lstrip())) == (len(lines[i + 1]) - len(lines[i + 1].lstrip())) and st != lines[i + 1].strip() and "=>" not in st and not in_test:
+                    ms.append(dict(file=rel, line=i + 1, old=ln.strip(), new=lines[i + 1].strip() + "  ⇅", text=lines[i + 1], op="swap with next line", swap=True))
+                # a negation dropped or added
+                for m in re.finditer(r"!(?=[a-z(])(?!=)", code):
+                    if code[: m.start()].count('"') % 2 == 1 or (m.start() > 0 and re.match(r"[\w]", code[m.start() - 1])):
+                        continue
+                    new = code[: m.start()] + code[m.end():] + ln[len(code):]
+                    ms.append(dict(file=rel, line=i + 1, old=ln.strip(), new=new.strip(), text=new, op="negation dropped"))
+                for m in re.finditer(r"\bif (?!let\b)(?!!)", code):
+                    new = code[: m.end()] + "!" + code[m.end():] + ln[len(code):]
+                    if "{" in code[m.end():]:
+                        cond = code[m.end(): code.rindex("{")].strip()
+                        new = code[: m.end()] + "!(" + cond + ") " + code[code.rindex("{"):] + ln[len(code):]
+                        ms.append(dict(file=rel, line=i + 1, old=ln.strip(), new=new.strip(), text=new, op="condition negated"))
+                for m in re.finditer(r"\bSome\(([^()]*)\)", code):
+                    if code[: m.start()].count('"') % 2 == 1 or "=>" in code[m.end():m.end() + 4] or code[: m.start()].rstrip().endswith(("let", "|", "(")) and "=" in code[m.end():]:
+                        continue
+                    new = code[: m.start()] + "None" + code[m.end():] + ln[len(code):]
+                    ms.append(dict(file=rel, line=i + 1, old=ln.strip(), new=new.strip(), text=new, op="Some(x)→None"))
             if "ops" not in KINDS:
                 continue
             for m in INT.finditer(code):
@@ -160,12 +185,16 @@ def run_one(job):
     subprocess.run(["rsync", "-a", "--delete", "--exclude", "target", "--exclude", ".git", "--exclude", "website", REPO + "/", dst + "/"], check=True)
     p = os.path.join(dst, m["file"])
     lines = open(p).read().split("\n")
-    lines[m["line"] - 1] = m["text"]
+    if m.get("swap"):
+        lines[m["line"] - 1], lines[m["line"]] = lines[m["line"]], lines[m["line"] - 1]
+    else:
+        lines[m["line"] - 1] = m["text"]
     open(p, "w").write("\n".join(lines))
     env = dict(os.environ, CARGO_NET_OFFLINE="true", CARGO_TARGET_DIR=os.path.join(d, "target"))
     r = subprocess.run(["cargo", "test", "--offline", "--quiet", "--lib"], cwd=dst, env=env, capture_output=True, text=True)
     res = dict(m, idx=idx)
     res.pop("text", None)
+    res["swap"] = bool(m.get("swap"))
     if r.returncode != 0:
         res["status"] = "does-not-compile" if "error[" in r.stderr or "error:" in r.stderr and "test failed" not in r.stderr else "killed-by-suite"
         return res
